@@ -2106,6 +2106,19 @@ fn c10_index(sink: &mut Sink, r: &mut Rng, ops: &[Op]) {
         );
     }
 }
+/// a literal on the boundary of what the nodes store under `key` (the column's min / max, or some
+/// stored value): where inclusive / exclusive bounds and min/max pruning decide
+fn boundary_lit(r: &mut Rng, w: &World, key: &str) -> Option<V> {
+    let ints: Vec<i64> = w.nodes.values().filter_map(|n| match n.props.get(key) { Some(V::Int(i)) => Some(*i), _ => None }).collect();
+    if ints.is_empty() {
+        return None;
+    }
+    Some(V::Int(match r.below(5) {
+        0 | 1 => *ints.iter().max().unwrap(),
+        2 | 3 => *ints.iter().min().unwrap(),
+        _ => *r.pick(&ints),
+    }))
+}
 /// S2: the range path (a lone range / BETWEEN predicate on a scan) vs the generic filter (p AND p)
 fn c10_range(sink: &mut Sink, r: &mut Rng, ops: &[Op]) {
     let w = World::build(true, ops);
@@ -2124,7 +2137,10 @@ fn c10_range(sink: &mut Sink, r: &mut Rng, ops: &[Op]) {
     let key = *r.pick(&["x", "x", "x", "y", "y", "w", "w", "u", "u", "b"]);
     let rng_leaf = |r: &mut Rng, ops: &[Cmp]| {
         let op = *r.pick(ops);
-        let l = Ex::Lit(gen_lit(r, key));
+        let l = Ex::Lit(match (r.chance(1, 2), boundary_lit(r, &w, key)) {
+            (true, Some(v)) => v,
+            _ => gen_lit(r, key),
+        });
         let p = Ex::Prop(a.clone(), key.to_string());
         if r.chance(1, 5) { Ex::Cmp(op, Box::new(l), Box::new(p)) } else { Ex::Cmp(op, Box::new(p), Box::new(l)) }
     };
@@ -2215,7 +2231,11 @@ fn c10_zone(sink: &mut Sink, r: &mut Rng, ops: &[Op]) {
         // the heterogeneous column x (Int / Float / String values, often few of them)
         Ex::Cmp(op, Box::new(Ex::Prop(var, "x".into())), Box::new(Ex::Lit(gen_lit(r, "x"))))
     } else {
-        Ex::Cmp(op, Box::new(Ex::Prop(var, "w".into())), Box::new(Ex::Lit(V::Int(r.range(0, 22)))))
+        let lit = match (!on_edge && r.chance(1, 2), boundary_lit(r, &w1, "w")) {
+            (true, Some(v)) => v,
+            _ => V::Int(r.range(0, 22)),
+        };
+        Ex::Cmp(op, Box::new(Ex::Prop(var, "w".into())), Box::new(Ex::Lit(lit)))
     };
     let leaf = if ne_case {
         Ex::Cmp(Cmp::Ne, Box::new(Ex::Prop(q.start.var.clone(), "x".into())), Box::new(Ex::Lit(V::Int(3))))
